@@ -120,6 +120,8 @@ type Exec struct {
 	onces   map[*Value]bool
 	nmap    int
 	intMode bool
+	bigHuge int // big.Int values outside the modelled range met so far
+	fpErrN  int // fresh rounding-error variables of the relaxed float64 model (Int mode)
 
 	opts ExecOpts
 
@@ -186,6 +188,9 @@ type Violation struct {
 	Model  map[string]string `json:"model"`
 	Prefix []int             `json:"decisions"`
 	Stack  []string          `json:"stack,omitempty"`
+	// Threads is the number of goroutines the path started (its outcome may then
+	// depend on an order the Go runtime picks for itself in a native run).
+	Threads int `json:"goroutines,omitempty"`
 }
 
 // ---------------------------------------------------------------------------
@@ -402,7 +407,7 @@ func (e *Exec) constValue(c *ssa.Const) Value {
 			return constant.StringVal(c.Value)
 		case b.Info()&types.IsFloat != 0:
 			f, _ := constant.Float64Val(c.Value)
-			return e.ctx.FPConst(f)
+			return e.fpConst(f)
 		case b.Info()&types.IsInteger != 0:
 			w, _, _ := intWidth(b)
 			bi, _ := new(big.Int).SetString(constant.ToInt(c.Value).ExactString(), 10)
